@@ -1250,7 +1250,9 @@ func (f *fragment) minRow(filter *Row) (uint64, uint64) {
 			return minRowID, 1
 		}
 		// iterate from min row ID and return the first that intersects with filter.
-		for i := minRowID; i <= f.maxRowID; i++ {
+		// (f.maxRowID is only raised by setBit; imports and Store do not maintain it.)
+		maxRowID := f.storage.Max() / ShardWidth
+		for i := minRowID; i <= maxRowID; i++ {
 			row := f.row(i).Intersect(filter)
 			count := row.Count()
 			if count > 0 {
@@ -1267,16 +1269,22 @@ func (f *fragment) minRow(filter *Row) (uint64, uint64) {
 func (f *fragment) maxRow(filter *Row) (uint64, uint64) {
 	minRowID, hasRowID := f.minRowID()
 	if hasRowID {
+		// f.maxRowID is a high-water mark of setBit only: it is not lowered when rows are
+		// cleared and not raised by imports or Store, so ask the storage.
+		maxRowID := f.storage.Max() / ShardWidth
 		if filter == nil {
-			return f.maxRowID, 1
+			return maxRowID, 1
 		}
 		// iterate back from max row ID and return the first that intersects with filter.
 		// TODO: implement reverse container iteration to improve performance here for sparse data. --Jaffee
-		for i := f.maxRowID; i >= minRowID; i-- {
+		for i := maxRowID; i >= minRowID; i-- {
 			row := f.row(i).Intersect(filter)
 			count := row.Count()
 			if count > 0 {
 				return i, count
+			}
+			if i == 0 {
+				break // i is unsigned: i-- would wrap around and never end the loop
 			}
 		}
 	}
